@@ -116,8 +116,8 @@ type input struct {
 	Kind  string `json:"kind,omitempty"` // "" = history, "f26-stress"
 	// Continue: keep going after a leaked mutex / failed canary (default: the history
 	// ends at the first operation that breaks the property)
-	Continue bool `json:"continue,omitempty"`
-	Ops   []jop  `json:"ops"`
+	Continue bool  `json:"continue,omitempty"`
+	Ops      []jop `json:"ops"`
 }
 
 // per-operation observation, produced by the worker
@@ -890,10 +890,25 @@ func (w *world) exec(i int, op jop, prior []jop) (o *obs) {
 			if _, err := p.r.Send(w.x.ServerIdentity, msg, &Marker{N: k}); err != nil {
 				o.Note = "send: " + err.Error()
 			}
-			select {
-			case <-ch:
-			case <-time.After(2 * time.Second):
-				o.Out = 2
+			// the marker follows the message on the same connection: it is dispatched
+			// when Process has returned. Never returned = some overlay mutex is held.
+		waitMarker:
+			for tries := 0; ; tries++ {
+				select {
+				case <-ch:
+					break waitMarker
+				case <-time.After(time.Second):
+					held := false
+					for _, f := range w.ov.VerifLocksFree() {
+						if !f {
+							held = true
+						}
+					}
+					if (held && tries >= 1) || tries >= 20 {
+						o.Out = 2
+						break waitMarker
+					}
+				}
 			}
 		} else {
 			env := &network.Envelope{ServerIdentity: w.idOf(op.P), MsgType: typ, Msg: msg}
